@@ -59,7 +59,7 @@ CLAIMED = {
         "grid maps, multilinear interpolation, nearest neighbour with open tie rule, zeros/border/constant padding); TLC checks the laws and "
         "emits every target sample's expected value; three-way comparison spec / deepali / SimpleITK.Resample",
         "every sample of every (source image, target grid, padding) case is compared on Image.sample, ImageBatch.sample (shared grid, per-image "
-        "grids, explicit coordinates), sample_image, grid_sample, SampleImage; SimpleITK must agree with the spec inside the source hull "
+        "grids, mixed source grids, explicit coordinates), sample_image, grid_sample, SampleImage with target points given in each of the four axes; SimpleITK must agree with the spec inside the source hull "
         "or the check fails as machinery error",
         "trusted: TLC, GridDefs (C01/C02), SimpleITK as independent reference; small integer images, rational rotations",
         "DESIGN.md 3 C05",
@@ -69,7 +69,7 @@ CLAIMED = {
         "TLA+ meaning function of every linear model and composite as an exact affine map of the cube, its world-space conjugate W and "
         "its expression in any other grid's coordinates; TLC checks the consistency laws and enumerates model x parameter x grid cases; "
         "each case is evaluated through every view of the real object and all views must show the same W",
-        "18 model variants (elementary, rigid/similarity/affine/full-affine, generic configurable, explicit sequential, multi-level) on "
+        "18 model variants (elementary, rigid/similarity/affine/full-affine, generic configurable, explicit sequential, multi-level with 2, 3 and 4 members incl. tensor()) on "
         "oriented anisotropic grids with either align_corners; views: tensor/matrix, call/forward, points() in world and other-grid "
         "coordinates, PointSetTransformer, disp()/flow() on own and other grid, ImageTransformer on two targets, default identity",
         "trusted: TLC, GridDefs (bound by C01), Rotations0 (bound by C08), harness/dv/tform.py; non-rigid models are bound on their exact "
@@ -127,7 +127,7 @@ CLAIMED = {
         "scaling and squaring as exact affine recursion d -> d + d o (id + d); TLC proves the closed form (I + sH/2^k)^(2^k) and the invariance "
         "of the sample hull in every step for each admitted case, and emits the exact result; expv / ExpFlow / SVF transform / FlowFields.exp "
         "compared at every grid point in float64 and float32; inverse flag decided relationally",
-        "all hull-invariant cases of the lattice (2-D/3-D shapes, both align_corners, 5+3 generators, scales, steps 0..2)",
+        "all hull-invariant cases of the lattice (2-D/3-D shapes, both align_corners, 5+3 generators (8+5 thorough), scales, steps 0..2); the SVF transform also reached through grid_() from the grid with the other align_corners convention",
         "trusted: TLC, exactness of linear interpolation on affine fields inside the hull; convergence for large k not decided",
         "DESIGN.md 3 C11",
     ),
@@ -136,7 +136,7 @@ CLAIMED = {
         "polynomial vector fields of degree <= 2 with exact analytic Jacobian, Hessian, divergence, curl and det(I+J) in TLA+; TLC checks that "
         "every finite-difference stencil is exact on its exact index set; flow_derivatives in all 7 schemes, key subsets, mixed-derivative "
         "symmetry, jacobian_dict/matrix/det, divergence and curl are compared with the analytic values",
-        "2-D/3-D shapes, isotropic and anisotropic spacing given as scalar / per axis / per batch item, affine and quadratic fields, batch of 2; "
+        "2-D/3-D shapes, isotropic and anisotropic spacing given as scalar / per axis / per batch item (items with different spacing), affine and quadratic fields, batch of 2; B-spline mode with a different stride per axis (a derivative must not depend on the other keys requested); "
         "first derivatives on the full exact set of each scheme, second derivatives and assembled quantities at interior probes",
         "trusted: TLC; border samples of the one-sided schemes are exempt as the property says",
         "DESIGN.md 3 C12",
@@ -167,7 +167,7 @@ CLAIMED = {
         "accessor copies and deep copies over all histories up to the bound and emits every history, each replayed on real grids, cubes, images, "
         "flow fields and transforms (spec->code); the write set observed for every call of the functional API, the losses and every deepali-defined "
         "method of the object classes is recorded and validated against Trace_Heap (code->spec)",
-        "all histories of {accessor copy, deep copy, underscore mutation of either side, observation} up to length 4 (5 thorough) on 8 object kinds; "
+        "all histories of {accessor copy, deep copy, underscore mutation of either side (incl. in-place edits of the held Grid), observation} up to length 4 (5 thorough) on 10 object kinds incl. batches; "
         "all 152 public functions of core.functional / losses.functional for which an argument recipe exists (listed otherwise) in 2-D/3-D with plain, "
         "non-contiguous, requires_grad (and integer) arguments plus each optional parameter alone and all pairs of boolean options; ~1900 "
         "(class, method) pairs of Grid, Cube, Image(Batch), FlowField(s) and 20 transform kinds with full receiver projection and behaviour probe",
@@ -182,7 +182,7 @@ CLAIMED = {
         "handling, reductions, documented argument forms) as TLA+ predicates over recorded evaluations of EVERY loss incl. LCC/WLCC/MI/NMI, "
         "validated by Trace_Loss",
         "all (pair, mask, loss, reduction, norm) cases of the lattice for layer 1 incl. loss modules and target/weight forms; layer 2 on random "
-        "integer images in 2-D/3-D with N, C in {1, 2} and three mask shapes per loss",
+        "integer images in 2-D/3-D with N, C in {1, 2} and three mask shapes per loss, WLCC with distinct source/target masks, loss modules with implicit normalisation from source / target / both",
         "trusted: TLC, micro-unit encoding of recorded values (tolerance 3e-5); MI/NMI only relational",
         "DESIGN.md 3 C16",
     ),
@@ -192,7 +192,7 @@ CLAIMED = {
         "derivatives of polynomial fields; conversion laws between all pairs of elastic constants and inverse-consistency of affine pairs "
         "checked by TLC; the implementation's 'none' output is compared at interior probes, reductions/scaling/spacing/affine-invariance as "
         "relations between evaluations; B-spline bending against the analytic spline energy",
-        "2-D/3-D polynomial fields x 4 derivative modes x 3 reductions; 7 parameter pairs x 4 materials; inverse consistency for exact and "
+        "2-D/3-D polynomial fields x 4 derivative modes x 3 reductions, default spacing = cube spacing for every term; 7 parameter pairs x 4 materials; inverse consistency for exact and "
         "non-inverse pairs x {cube, voxel, world} x both align_corners x {matrix, flow} arguments",
         "trusted: TLC, Deriv (bound by C12); 'random smooth fields' only via the relational laws",
         "DESIGN.md 3 C17",
@@ -231,7 +231,7 @@ CLAIMED = {
         "quotient equals the derivative for every in-cell step, and emits every leaf, compared with torch.autograd to 1e-9; layer 2: directional "
         "derivatives of every transform (points, disp, inverse, image/point-set transformer), functional operation and loss recorded with two central "
         "difference quotients and judged by the acceptance rule written in Trace_Grad (Richardson estimate, kink exclusion, round-off allowance)",
-        "31 exact leaves x 4 sampling APIs; 261 scalar functions (16 transform kinds x 6 modes, 13 functional operations, every loss of losses.functional) "
+        "31 exact leaves x 4 sampling APIs; ~430 scalar functions (16 transform kinds and 7 user-composed composites x 8 modes, 13 functional operations, every loss of losses.functional) "
         "in 2-D and 3-D x all parameter tensors x 2 (6 thorough) random directions on a 5-level step ladder",
         "trusted: TLC; torch.autograd as the quantity under test; float64 inputs, float32 sampling grids inside the library (3 % allowance for operations "
         "summed over a sampling grid, 5e-4 otherwise); MI/NMI evaluated with an explicit histogram range",
